@@ -422,23 +422,35 @@ def decodeLayer : List Bytes → Res Layer
 
 /-! ## the `ICED` header record -/
 
+/-- the four mode fields hold the VARIANT (index in declaration order: `Gen.Icy.bufferTypeVariants`, …), not its byte -/
 structure Header where
-  bufferType : Nat     -- 0 Unicode, 1 CP437, 2 Petscii, 3 Atascii, 4 Viewdata
-  iceMode : Nat        -- 0 Unlimited, 1 Blink, 2 Ice
-  paletteMode : Nat    -- 0 RGB, 1 Fixed16, 2 Free8, 3 Free16
-  fontMode : Nat       -- 0 Unlimited, 1 Sauce, 2 Single, 3 FixedSize
+  bufferType : Nat     -- BufferType: Unicode, CP437, Petscii, Atascii, Viewdata
+  iceMode : Nat        -- IceMode: Unlimited, Blink, Ice
+  paletteMode : Nat    -- PaletteMode: RGB, Fixed16, Free8, Free16
+  fontMode : Nat       -- FontMode: Unlimited, Sauce, Single, FixedSize
   width : Nat
   height : Nat
   deriving DecidableEq, Repr
 
-def encodeHeader (h : Header) : Bytes :=
-  [icdVersion % 256, icdVersion / 256 % 256] ++ leBytes 4 0 ++ leBytes 2 h.bufferType ++
-  [h.iceMode % 256, h.paletteMode % 256, h.fontMode % 256] ++ leBytes 4 h.width ++ leBytes 4 h.height
+/-- `X::to_byte(self)`: the `match self` table regenerated from src/buffers.rs, indexed by variant -/
+def toByteTbl (tbl : List Nat) (v : Nat) : Nat := tbl.getD v 0
+/-- `X::from_byte(b)`: the `match b` of src/buffers.rs — the first explicit arm naming `b`, else the `_` arm -/
+def fromByteTbl (arms : List (Nat × Nat)) (dflt b : Nat) : Nat := (arms.lookup b).getD dflt
 
-/-- `BufferType::from_byte`, `PaletteMode::from_byte`, `FontMode::from_byte`: unknown → variant 0 -/
-def modeFromByte (max b : Nat) : Nat := if 1 ≤ b ∧ b ≤ max then b else 0
-/-- `IceMode::from_byte`: unknown → Ice -/
-def iceFromByte (b : Nat) : Nat := if b ≤ 1 then b else 2
+def bufferTypeByte (v : Nat) : Nat := toByteTbl bufferTypeToByte v
+def iceModeByte (v : Nat) : Nat := toByteTbl iceModeToByte v
+def paletteModeByte (v : Nat) : Nat := toByteTbl paletteModeToByte v
+def fontModeByte (v : Nat) : Nat := toByteTbl fontModeToByte v
+def bufferTypeOfByte (b : Nat) : Nat := fromByteTbl bufferTypeFromArms bufferTypeFromDefault b
+def iceModeOfByte (b : Nat) : Nat := fromByteTbl iceModeFromArms iceModeFromDefault b
+def paletteModeOfByte (b : Nat) : Nat := fromByteTbl paletteModeFromArms paletteModeFromDefault b
+def fontModeOfByte (b : Nat) : Nat := fromByteTbl fontModeFromArms fontModeFromDefault b
+
+/-- the buffer type is stored as `to_byte() as u16` (two bytes), the other modes as one byte each -/
+def encodeHeader (h : Header) : Bytes :=
+  [icdVersion % 256, icdVersion / 256 % 256] ++ leBytes 4 0 ++ leBytes 2 (bufferTypeByte h.bufferType) ++
+  [iceModeByte h.iceMode % 256, paletteModeByte h.paletteMode % 256, fontModeByte h.fontMode % 256] ++
+  leBytes 4 h.width ++ leBytes 4 h.height
 
 def decodeHeader (bytes : Bytes) : Res Header :=
   if bytes.length ≠ icedHeaderSize then .fail .errHeader else
@@ -461,7 +473,8 @@ def decodeHeader (bytes : Bytes) : Res Header :=
   | .fail e => .fail e
   | .ok (h, _) =>
   if w ≥ 2147483648 ∨ h ≥ 2147483648 then .fail .negSize else
-  .ok ⟨modeFromByte 4 (bt % 256), iceFromByte ice, modeFromByte 3 pal, modeFromByte 3 font, w, h⟩
+  -- `BufferType::from_byte(buffer_type as u8)`: the high byte of the u16 is dropped
+  .ok ⟨bufferTypeOfByte (bt % 256), iceModeOfByte ice, paletteModeOfByte pal, fontModeOfByte font, w, h⟩
 
 /-! ## whole documents: the chunk sequence -/
 
@@ -541,9 +554,14 @@ structure Loaded (F S : Type) where
   fontAt : Nat → Option F
   layers : List Layer
 
+/-- the modes `Buffer::new` sets (variant names regenerated from src/buffers.rs) and the size (80, 25) `load_buffer` passes -/
+def initialHeader : Header :=
+  ⟨bufferTypeVariants.idxOf (initialModes.getD 0 ""), iceModeVariants.idxOf (initialModes.getD 1 ""),
+   paletteModeVariants.idxOf (initialModes.getD 2 ""), fontModeVariants.idxOf (initialModes.getD 3 ""), 80, 25⟩
+
 /-- `Buffer::new((80, 25))` with `layers.clear()` -/
 def initLoaded {F S : Type} (cd : Codecs F S) : Loaded F S :=
-  { hdr := ⟨1, 0, 1, 1, 80, 25⟩, sauce := none, palette := dosDefaultPalette,
+  { hdr := initialHeader, sauce := none, palette := dosDefaultPalette,
     fontAt := fun k => if k = 0 then some cd.defaultFont else none, layers := [] }
 
 /-- one chunk other than `END` -/
@@ -632,8 +650,10 @@ def Layer.wf (l : Layer) : Bool :=
 def WfLayer (l : Layer) : Prop := l.wf = true
 instance (l : Layer) : Decidable (WfLayer l) := inferInstanceAs (Decidable (l.wf = true))
 
+/-- every mode field is one of the enum's variants; the size is a non-negative `i32` -/
 def Header.wf (h : Header) : Bool :=
-  h.bufferType ≤ 4 && h.iceMode ≤ 2 && h.paletteMode ≤ 3 && h.fontMode ≤ 3 &&
+  h.bufferType < bufferTypeVariants.length && h.iceMode < iceModeVariants.length &&
+  h.paletteMode < paletteModeVariants.length && h.fontMode < fontModeVariants.length &&
   h.width < 2147483648 && h.height < 2147483648
 
 def WfHeader (h : Header) : Prop := h.wf = true
